@@ -1115,7 +1115,6 @@ func runSignal(c *Ctx, r *Reporter) {
 			}
 		}
 		okz := false
-		_ = alloc
 		if zeroIf != nil {
 			tb := zeroIf.Block().Succs[0]
 			if len(tb.Instrs) > 0 {
@@ -1138,6 +1137,12 @@ func runSignal(c *Ctx, r *Reporter) {
 			// the tested value is the step operand of the range: the number evaluated from GetStep()
 			if okz {
 				okz = false
+				// … or, however it was obtained, the very value that becomes the range's step
+				if alloc != nil {
+					if sv := storedFieldValue(alloc, "step"); sv != nil && sv == zeroIf.Cond.(*ssa.BinOp).X {
+						okz = true
+					}
+				}
 				if ex, ok := zeroIf.Cond.(*ssa.BinOp).X.(*ssa.Extract); ok && ex.Index == 0 {
 					if call, ok := ex.Tuple.(*ssa.Call); ok && len(call.Call.Args) >= 2 {
 						if inv, ok := call.Call.Args[len(call.Call.Args)-1].(*ssa.Call); ok && (inv.Call.IsInvoke() && inv.Call.Method.Name() == "GetStep" || inv.Call.StaticCallee() != nil && inv.Call.StaticCallee().Name() == "GetStep") {
@@ -1378,31 +1383,78 @@ func runParseGate(c *Ctx, r *Reporter) {
 	if fd := FindFunc(mainPkg, "(*runCmd).Run"); fd != nil {
 		sf := p.SSAFunc(fd.Obj)
 		var runCall, asCall, svgCall, handleCall *ssa.Call
-		for _, b := range sf.Blocks {
-			for _, ins := range b.Instrs {
-				if call, ok := ins.(*ssa.Call); ok {
-					if sc := call.Call.StaticCallee(); sc != nil {
-						switch {
-						case sc.Name() == "Run" && sc.Pkg != nil && sc.Pkg.Pkg.Path() == evalPkg.PkgPath:
-							runCall = call
-						case sc.Name() == "As" && sc.Pkg != nil && sc.Pkg.Pkg.Path() == "errors":
-							asCall = call
-						case sc.Name() == "writeSVG":
-							svgCall = call
-						case sc.Name() == "handleEvyErr":
-							handleCall = call
+		var asCalls []*ssa.Call
+		// the command may be split into helpers: the calls are looked for in the command function and the functions of
+		// the main package it calls
+		for _, h := range regionFns(sf, 2, nil) {
+			if h.Pkg != sf.Pkg {
+				continue
+			}
+			for _, b := range h.Blocks {
+				for _, ins := range b.Instrs {
+					if call, ok := ins.(*ssa.Call); ok {
+						if sc := call.Call.StaticCallee(); sc != nil {
+							switch {
+							case sc.Name() == "Run" && sc.Pkg != nil && sc.Pkg.Pkg.Path() == evalPkg.PkgPath:
+								runCall = call
+							case sc.Name() == "As" && sc.Pkg != nil && sc.Pkg.Pkg.Path() == "errors":
+								asCalls = append(asCalls, call)
+							case sc.Name() == "writeSVG":
+								svgCall = call
+							case sc.Name() == "handleEvyErr":
+								handleCall = call
+							}
 						}
 					}
 				}
 			}
 		}
+		for _, ac := range asCalls { // the errors.As that examines Run's error
+			if runCall != nil && ac.Parent() == runCall.Parent() && len(ac.Call.Args) == 2 && valueReaches(ac.Call.Args[0], runCall, 3) {
+				asCall = ac
+			}
+		}
 		if runCall == nil || handleCall == nil {
 			r.Viol(fd.QName()+"#report", p.Rel(fd.Decl.Pos()), "`evy run` must run the program through (*Evaluator).Run and hand its error to handleEvyErr")
-		} else {
+		} else if runCall.Parent() == handleCall.Parent() {
 			// handleEvyErr on every path after Run
 			okh := !anyReturnPathAvoiding(runCall.Block(), []*ssa.BasicBlock{handleCall.Block()}) && reachesBlock(runCall.Block(), handleCall.Block())
 			okh = okh && valueReaches(handleCall.Call.Args[0], runCall, 5)
 			r.Check(okh, fd.QName()+"#report", p.Rel(instrPos(handleCall)), "the evaluation error always reaches handleEvyErr", "a path from eval.Run to the end of `evy run` avoids handleEvyErr, or handleEvyErr does not receive Run's error: a rejected program could end with status 0")
+		} else {
+			// the program is run in a helper: the helper returns Run's error whenever there is one, and its caller hands
+			// the helper's result to handleEvyErr on every path
+			runFn, hFn := runCall.Parent(), handleCall.Parent()
+			okh := false
+			for _, hc := range callsTo(hFn, runFn) {
+				inner, isCall := hc.(*ssa.Call)
+				if !isCall {
+					continue
+				}
+				okh = !anyReturnPathAvoiding(inner.Block(), []*ssa.BasicBlock{handleCall.Block()}) && reachesBlock(inner.Block(), handleCall.Block()) &&
+					valueReaches(handleCall.Call.Args[0], inner, 5)
+			}
+			for _, ret := range returnsOf(runFn) {
+				if len(ret.Results) == 0 {
+					okh = false
+					continue
+				}
+				if valueReaches(ret.Results[len(ret.Results)-1], runCall, 5) {
+					continue
+				}
+				knownNil := false // Run's error is nil on this path: another error may be returned
+				for _, f := range impliedConds(ret.Block()) {
+					if bo, ok := f.Cond.(*ssa.BinOp); ok && (bo.Op == token.NEQ || bo.Op == token.EQL) {
+						if k, ok := bo.Y.(*ssa.Const); ok && k.IsNil() && valueReaches(bo.X, runCall, 3) && f.Truth == (bo.Op == token.EQL) {
+							knownNil = true
+						}
+					}
+				}
+				if !knownNil {
+					okh = false
+				}
+			}
+			r.Check(okh, fd.QName()+"#report", p.Rel(instrPos(handleCall)), "the evaluation error always reaches handleEvyErr (through "+runFn.Name()+")", "a path from eval.Run to the end of `evy run` avoids handleEvyErr, or handleEvyErr does not receive Run's error: a rejected program could end with status 0")
 		}
 		if svgCall != nil {
 			okS := false
@@ -1440,10 +1492,27 @@ func runParseGate(c *Ctx, r *Reporter) {
 					continue
 				}
 				if sc.Pkg.Pkg.Path() == "os" && sc.Name() == "Exit" {
-					if k, ok := call.Call.Args[0].(*ssa.Const); ok && k.Value != nil {
-						exits[k.Value.ExactString()] = true
-					} else {
-						exits["dynamic"] = true
+					// the status, or what a helper of the package that computes it returns
+					vals := []ssa.Value{call.Call.Args[0]}
+					if ex, ok := call.Call.Args[0].(*ssa.Extract); ok {
+						if hc, ok := ex.Tuple.(*ssa.Call); ok && hc.Call.StaticCallee() != nil && hc.Call.StaticCallee().Pkg == sf.Pkg {
+							vals = nil
+							for _, ret := range returnsOf(hc.Call.StaticCallee()) {
+								vals = append(vals, ret.Results[ex.Index])
+							}
+						}
+					} else if hc, ok := call.Call.Args[0].(*ssa.Call); ok && hc.Call.StaticCallee() != nil && hc.Call.StaticCallee().Pkg == sf.Pkg {
+						vals = nil
+						for _, ret := range returnsOf(hc.Call.StaticCallee()) {
+							vals = append(vals, ret.Results[0])
+						}
+					}
+					for _, v := range vals {
+						if k, ok := v.(*ssa.Const); ok && k.Value != nil {
+							exits[k.Value.ExactString()] = true
+						} else {
+							exits["dynamic"] = true
+						}
 					}
 				}
 				if sc.Pkg.Pkg.Path() == "fmt" && strings.HasPrefix(sc.Name(), "Fprint") {
